@@ -93,6 +93,9 @@ func Thorough(c *Ctx, prop, repo, verif, exe string, res *report.Result, finding
 		jobs = append(jobs, job{"seeded/" + filepath.Base(filepath.Dir(s)), []string{"-patch", s}, "witness"})
 	}
 	revs, _ := filepath.Glob(filepath.Join(verif, "witness", "revert-"+prop+"-*.patch"))
+	// hand-written one-line mutants of the anchored mechanisms (checker self-test, DESIGN 9.5)
+	muts, _ := filepath.Glob(filepath.Join(verif, "witness", "mutant-"+prop+"-*.patch"))
+	revs = append(revs, muts...)
 	sort.Strings(revs)
 	for _, s := range revs {
 		jobs = append(jobs, job{"witness/" + strings.TrimSuffix(filepath.Base(s), ".patch"), []string{"-patch", s}, "witness"})
